@@ -2,6 +2,7 @@ package main
 
 import (
 	"bytes"
+	stdjson "encoding/json"
 	"fmt"
 	"strconv"
 	"strings"
@@ -54,7 +55,7 @@ func checkAppend(plen, spareKind int, f func(b []byte) ([]byte, error)) string {
 		backing[i] = byte(0xC0 + i%31)
 	}
 	prefix := append([]byte(nil), backing[:plen]...)
-	b := backing[:plen:plen+spare]
+	b := backing[: plen : plen+spare]
 	out, err := f(b)
 	if !bytes.Equal(backing[:plen], prefix) {
 		return "PREFIX-BYTES-OVERWRITTEN"
@@ -95,7 +96,9 @@ func jAppendEscape(s []byte, plen, spareKind int) {
 		return
 	}
 	impl := guarded(func() string {
-		r := checkAppend(plen, spareKind, func(b []byte) ([]byte, error) { return json.AppendEscape(b, string(s), json.AppendFlags(spareKind&1)), nil })
+		r := checkAppend(plen, spareKind, func(b []byte) ([]byte, error) {
+			return json.AppendEscape(b, string(s), json.AppendFlags(spareKind&1)), nil
+		})
 		if r != "ok" {
 			return "AppendEscape:" + r
 		}
@@ -166,6 +169,26 @@ func c15() {
 			}
 		}
 	}
+	// UNSORTED map encoding (flags without SortMapKeys): every specialised string-keyed map type and the generic one,
+	// with at most one entry per map so that the output is repeatable, at top level and nested, behind every prefix
+	// length and spare capacity: the remainder equals Append(nil, ...) and, HTML escaping aside, encoding/json's bytes
+	c15maps := []any{map[string]any{"answer": 42}, map[string]string{"a": "b"}, map[string]json.RawMessage{"r": json.RawMessage("[1]")}, map[string][]string{"k": {"x", "y"}},
+		map[string]bool{"t": true}, []map[string]string{{"a": "b"}, {"c": "d"}, {}}, struct {
+			A int
+			M map[string]any
+			N map[string]bool
+		}{1, map[string]any{"x": nil}, map[string]bool{"y": false}},
+		map[string]any{"outer": map[string]any{"inner": []any{map[string]any{"deep": 1}}}}, map[int]string{1: "x"}, map[string]map[string]string{"o": {"i": "v"}},
+		[]any{map[string]string{"a": "b"}, map[string]any{}, map[string][]string{"k": nil}}}
+	for vi := range c15maps {
+		for _, fl := range []int{0, 1, 4, 5, 2} {
+			for _, pl := range []int{0, 1, 7, 4096} {
+				for sk := 0; sk < 5; sk++ {
+					jAppendMaps(vi, c15maps[vi], pl, sk, fl)
+				}
+			}
+		}
+	}
 	// the manual grow-and-reslice of encodeBytes, observed exactly (result length, capacity, whether the destination's
 	// array was kept): compared with the Coq model Json/AppendModel.v encode_bytes
 	for _, l := range []int{0, 1, 5, 64} {
@@ -176,6 +199,33 @@ func c15() {
 			}
 		}
 	}
+}
+
+func jAppendMaps(vi int, x any, plen, spareKind, flags int) {
+	if !mine() {
+		skip()
+		return
+	}
+	args := fmt.Sprintf("%d %d %d %d", vi, plen, spareKind, flags)
+	trace("j.appendmap", args)
+	impl := guarded(func() string {
+		r := checkAppend(plen, spareKind, func(b []byte) ([]byte, error) { return json.Append(b, x, json.AppendFlags(flags)) })
+		if r != "ok" {
+			return r
+		}
+		got, err := json.Append(nil, x, json.AppendFlags(flags))
+		var sb bytes.Buffer
+		se := stdjson.NewEncoder(&sb)
+		se.SetEscapeHTML(flags&int(json.EscapeHTML) != 0)
+		if serr := se.Encode(x); serr != nil || err != nil {
+			return fmt.Sprintf("err=%v stderr=%v", err, serr)
+		}
+		if want := bytes.TrimSuffix(sb.Bytes(), []byte("\n")); !bytes.Equal(got, want) {
+			return "got " + string(got) + " want " + string(want)
+		}
+		return "ok"
+	})
+	emit("j.appendmap", args, impl, "ok")
 }
 
 func jEncBytes(l, c, vlen int) {
